@@ -2,6 +2,7 @@ package rules
 
 import (
 	"fmt"
+	"regexp"
 	"strings"
 
 	"golang.org/x/tools/go/ssa"
@@ -37,6 +38,8 @@ func runWSDeadline(c *core.Ctx) {
 			short := name[strings.LastIndex(name, ".")+1:]
 			construct := "ctx-arg of (*websocket.Conn)." + short
 			ctxArg := call.Call.Args[1]
+			// a free function that is handed the timeout: its parameter is what every caller passes
+			subst := uniformArgSubst(c, fn)
 			var problems []string
 			nTimed, nUntimed := 0, 0
 			paths, _ := an.PathsTo(fn, call.Block(), 1024)
@@ -45,7 +48,7 @@ func runWSDeadline(c *core.Ctx) {
 				if !an.Feasible(p) {
 					continue
 				}
-				for _, dc := range deadlineCases(fn, ctxArg, p, call.Block(), nil, 0) {
+				for _, dc := range deadlineCases(fn, ctxArg, p, call.Block(), nil, 0, subst) {
 					if dc.timed {
 						nTimed++
 						continue
@@ -91,6 +94,45 @@ func runWSDeadline(c *core.Ctx) {
 	}
 }
 
+// uniformArgSubst: for a function all of whose module call sites pass the same
+// expression for a parameter (sendMsg(ctx, conn, msg, relay.opt.SendTimeout)),
+// a rewriting of access paths that names the parameter by that expression.
+func uniformArgSubst(c *core.Ctx, fn *ssa.Function) func(string) string {
+	bind := map[string]string{}
+	root := fn
+	for root.Parent() != nil {
+		root = root.Parent()
+	}
+	callers := callerIndex(c)[root]
+	if len(callers) > 0 && an.PrivateHelper(root) {
+		for i, p := range root.Params {
+			arg, same := "", true
+			for _, caller := range callers {
+				for _, ci := range calls(caller) {
+					if an.StaticCallee(ci.Common()) != root || len(ci.Common().Args) != len(root.Params) {
+						continue
+					}
+					ap := an.PathOf(ci.Common().Args[i])
+					if arg == "" {
+						arg = ap
+					} else if arg != ap {
+						same = false
+					}
+				}
+			}
+			if same && arg != "" && !strings.HasPrefix(arg, "p:") {
+				bind["p:"+p.Name()] = arg
+			}
+		}
+	}
+	return func(s string) string {
+		for k, v := range bind {
+			s = regexp.MustCompile(regexp.QuoteMeta(k)+`\b`).ReplaceAllString(s, strings.ReplaceAll(v, "$", "$$"))
+		}
+		return s
+	}
+}
+
 // deadlineCase: one way the context handed to a WebSocket operation comes
 // about: with a SendTimeout deadline or without, under which conditions
 // (access paths of the branch conditions, in the terms of the function that
@@ -105,12 +147,12 @@ type deadlineCase struct {
 // timed; a context produced by a module helper (`ctx, cancel :=
 // relay.withSendTimeout(ctx)`) is whatever the helper's return paths make it,
 // with the helper's own branch conditions added.
-func deadlineCases(fn *ssa.Function, v ssa.Value, p an.Path, at *ssa.BasicBlock, in *ssa.CallCommon, depth int) []deadlineCase {
+func deadlineCases(fn *ssa.Function, v ssa.Value, p an.Path, at *ssa.BasicBlock, in *ssa.CallCommon, depth int, subst func(string) string) []deadlineCase {
 	pathOf := func(x ssa.Value) string {
 		if in != nil {
 			return an.PathOfIn(x, in)
 		}
-		return an.PathOf(x)
+		return subst(an.PathOf(x))
 	}
 	// the conditions that select this way of getting the context: those that control
 	// the place where the choice is made — the operation's own block, or, when the context
@@ -167,7 +209,7 @@ func deadlineCases(fn *ssa.Function, v ssa.Value, p an.Path, at *ssa.BasicBlock,
 						if !an.Feasible(q) {
 							continue
 						}
-						for _, dc := range deadlineCases(g, rv[0], q, rb, &hc.Call, depth+1) {
+						for _, dc := range deadlineCases(g, rv[0], q, rb, &hc.Call, depth+1, subst) {
 							dc.conds = append(append([]string(nil), conds...), dc.conds...)
 							out = append(out, dc)
 						}
